@@ -535,6 +535,37 @@ Theorem direction_midless_refuted :
             forall2b (fun sec x => v_sec_dir sec x) (f_secs f30_offer2) (a_secs a) = false.
 Proof. eexists. split; vm_compute; reflexivity. Qed.
 
+(* F31: a rejected (port 0) m-line is answered with a live port; what does hold: the section is answered
+   in place (count / order / kind / mid are the theorems above, they do not depend on the port) *)
+Definition f31_offer : offer :=
+  mkOffer [["0"%string; "1"%string]] None
+    [osec_simple KAudio "0" [111] [mkCodec 111 "opus" 48000 2];
+     mkOsecP KVideo "1" DSendRecv [96] [] [] [] true (Some "actpass"%string) 0 false].
+Theorem rejected_port_refuted :
+  exists c o a, snd (negotiate c st_init o true) = AOk a /\ wfA (f_secs o) /\
+                List.length (a_secs a) = List.length (f_secs o) /\
+                forall2b (fun sec x => v_sec_port sec x) (f_secs o) (a_secs a) = false.
+Proof.
+  exists cfg_default, f31_offer. eexists. split; [vm_compute; reflexivity|].
+  split; [|split; vm_compute; reflexivity].
+  split; [repeat constructor|]. cbn. repeat constructor; cbn; intuition discriminate.
+Qed.
+
+(* the answered port never depends on the offered one: WebRTC mode always prints the default port *)
+Theorem answer_port_constant c s o a :
+  s_remote s = Some o -> create_answer c s = AOk a ->
+  Forall (fun x => a_port x = match c_mode c with MWebRtc => Some default_port | _ => None end) (a_secs a).
+Proof.
+  intros Hr H. destruct (create_answer_shape _ _ _ H) as [o' [pre [_ [Hb ->]]]].
+  assert (Hpre : Forall (fun x => a_port x = match c_mode c with MWebRtc => Some default_port | _ => None end) pre).
+  { clear H Hr. induction Hb as [|x sec l l' [t [_ [_ Hbs]]] _ IH]; [constructor|]. constructor; [|exact IH].
+    unfold build_sec in Hbs. destruct (t_mid t); [|discriminate].
+    destruct (match t_kind t with KAudio => _ | KVideo => _ | _ => _ end). injection Hbs as <-. reflexivity. }
+  destruct (finish_secs c o' pre) as [-> | ->]; [exact Hpre|].
+  apply Forall_forall. intros x Hx. apply in_map_iff in Hx as [y [<- Hy]].
+  rewrite Forall_forall in Hpre. exact (Hpre y Hy).
+Qed.
+
 (* premises of the conditional theorems are satisfiable: an offer / configuration for which the whole
    of valid_answer holds *)
 Definition good_offer : offer :=
